@@ -175,6 +175,20 @@ static void bool_ops(const bool* m1, const bool* m2, const Ops<T>& in, const cha
     BOP("bool_land", p && q, x && y);
     BOP("bool_lor", p || q, x || y);
     BOP("bool_copy_ctor", BB(p), x);
+    // other API forms: named functions and compound assignment on batch_bool, scalar bool operand (broadcast)
+    BOP("bool_xs_and", xs::bitwise_and(p, q), x && y);
+    BOP("bool_xs_or", xs::bitwise_or(p, q), x || y);
+    BOP("bool_xs_xor", xs::bitwise_xor(p, q), x != y);
+    BOP("bool_xs_not", xs::bitwise_not(p), !x);
+    BOP("bool_xs_eq", xs::eq(p, q), x == y);
+    BOP("bool_xs_neq", xs::neq(p, q), x != y);
+    BOP("bool_and_assign", (BB(p) &= q), x && y);
+    BOP("bool_or_assign", (BB(p) |= q), x || y);
+    BOP("bool_xor_assign", (BB(p) ^= q), x != y);
+    BOP("bool_and_true", p & BB(true), x);
+    BOP("bool_xor_true", p ^ BB(true), !x);
+    BOP("bool_or_false", p | BB(false), x);
+    BOP("bool_assign", ([&]() { BB t(false); t = p; return t; }()), x);
 #undef BOP
     {
         OpStat& st = VH_ST("C03", "mask");
